@@ -172,6 +172,32 @@ def wstep (d : DObj) (t : List String) : Option (M (DObj × String)) :=
       let r ← save o {}
       pure ({ d with o := r.obj }, "save=false bytes=-")
     | _ => some (pure (d, "save=false bytes=-"))
+  | ["forceoverlap", i, j] =>
+    let b := d.saved
+    if b.length < 64 then some (pure (d, "bad-op")) else
+    let c : Cls := if (b.getD 4 0).toNat == 2 then .c64 else .c32
+    let e : Enc := if (b.getD 5 0).toNat == 2 then .msb else .lsb
+    let i := parseNat i; let j := parseNat j
+    let shoff := (Hdr.e_shoff c e b).toNat; let shent := (Hdr.e_shentsize c e b).toNat
+    let shnum := (Hdr.e_shnum c e b).toNat
+    let fo := match c with | .c64 => 24 | .c32 => 16
+    let w := match c with | .c64 => 8 | .c32 => 4
+    if i ≥ shnum || j ≥ shnum || shoff + (max i j + 1) * shent > b.length then some (pure (d, "bad-op")) else
+    let oi := decodeInt e (slice b (shoff + i * shent + fo) w)
+    some (pure ({ d with saved := wr b (shoff + j * shent + fo) (encodeInt e w oi) }, "ok"))
+  | ["skew", j, dl] =>
+    let b := d.saved
+    if b.length < 64 then some (pure (d, "bad-op")) else
+    let c : Cls := if (b.getD 4 0).toNat == 2 then .c64 else .c32
+    let e : Enc := if (b.getD 5 0).toNat == 2 then .msb else .lsb
+    let j := parseNat j
+    let phoff := (Hdr.e_phoff c e b).toNat; let phent := (Hdr.e_phentsize c e b).toNat
+    let phnum := (Hdr.e_phnum c e b).toNat
+    let fo := match c with | .c64 => 16 | .c32 => 8
+    let w := match c with | .c64 => 8 | .c32 => 4
+    if j ≥ phnum || phoff + (j + 1) * phent > b.length then some (pure (d, "bad-op")) else
+    let v := decodeInt e (slice b (phoff + j * phent + fo) w)
+    some (pure ({ d with saved := wr b (phoff + j * phent + fo) (encodeInt e w (v + parseNat dl)) }, "ok"))
   | "reload" :: rest => some do
     let r ← load o { data := d.saved, kind := .str } (kvn rest "lazy" 0 == 1)
     pure ({ d with o := r.obj }, s!"load={r.ok}")
